@@ -100,7 +100,19 @@ func ruleJSN1(c *Ctx) {
 		if !ok || sw.Tag == nil {
 			return true
 		}
-		if id, ok := sw.Tag.(*ast.Ident); !ok || id.Name != "key" {
+		// the key switch: an identifier tag with string-literal cases among which "eq"
+		if _, ok := sw.Tag.(*ast.Ident); !ok {
+			return true
+		}
+		hasEq := false
+		for _, st := range sw.Body.List {
+			for _, e := range st.(*ast.CaseClause).List {
+				if bl, ok := e.(*ast.BasicLit); ok && bl.Value == `"eq"` {
+					hasEq = true
+				}
+			}
+		}
+		if !hasEq {
 			return true
 		}
 		for _, st := range sw.Body.List {
